@@ -35,7 +35,7 @@ CHECKS = {
          "Files of the tiny universe and curated families in JSON and Gambit (constant sums 0/2/-3, interior payoffs, outcomes shared by number, unnamed infosets, reduced / unreduced fractions, reversed action lists, names shared across players) x {full, sampled, external} x 5 discounts x budgets {1,50} x parallel {1,2} x clip {0,0.3}: exit 0, one JSON object, valid behavioural strategies over the file's names, printed utilities / regrets equal the brute-force evaluation of the PRINTED strategies on the file's own payoffs, u1+u2 = constant, regret = max.",
          "The quick tier runs a rotating fraction of the option product per file. Gambit constructs the generator does not emit (omitted action lists, comments) and duplicate JSON keys are not covered.", "5 C15"),
  "C16": ("E-INPUT (CLI)", "exhaustive enumeration of the option lattice (discount x max-iters x max-regret x parallel x clip x input route x output destination) per game file on the real binary, compared with the in-process library solve",
-         "Per file (JSON, Gambit constant 0 and 2) the lattice 5 x 2 x 2 x 2 x 3 x 6 routes x 2 destinations with the deterministic method: printed strategies equal the library's (bitwise for JSON at one thread, 1e-9 otherwise); the truncated profile is printed exactly when its reference regret is strictly lower; -o writes the file and nothing to stdout; JSON and Gambit encodings agree; chance-sampling on chance-free games equals the unsampled solver; max-iters 0 runs to the threshold.",
+         "Per file (JSON, Gambit constant 0 and 2) the lattice 5 x 2 x 2 x 2 x 3 x 6 routes x 2 destinations with the deterministic method: printed strategies equal the library's (bitwise for JSON at one thread, 1e-9 otherwise); the truncated profile is printed exactly when its reference regret is strictly lower; -o writes the file and nothing to stdout; JSON and Gambit encodings agree; chance-sampling on chance-free games equals the unsampled solver; max-iters 0 runs to the threshold; an omitted option means the default the help text shows.",
          "The quick tier runs a rotating sixth of the lattice per file. The external method is random on every game with an opponent decision: only option parsing / output validity (C15).", "5 C16"),
  "C17": ("E-INPUT (CLI)", "exhaustive enumeration of every single-edit corruption of every generated file at every node (fault enumeration over the input), each through four input routes, on the real binary",
          "JSON: every required field dropped / renamed / of the wrong type, probability 0 / -1, empty maps, truncation, trailing text, wrong format flag, contract violations. Gambit: 1 / 3 players, payoff just inside (must be accepted) and just outside the constant-sum tolerance, payoff too large for a double, probabilities not summing to one, unnamed-number clash, two same-named infosets of one player, differing action lists, truncation, wrong flag, contract violations. Oracle: non-zero exit, empty stdout, no output file, a fitting diagnostic category on stderr.",
@@ -59,7 +59,7 @@ CHECKS = {
          "Six games x both players x every candidate of <=2 (thorough 3) infoset entries x <=2 action entries over names/actions/weights alphabets incl. NaN, +-inf, -0, denormals, 1e300: from_named and from_named_eq must agree bitwise and match the reference import.",
          "A single-action infoset mentioned only with an empty action list is not settled by the statement: only the two paths are compared there.", "5 C14"),
  "C18": ("E-INPUT", "bounded-exhaustive enumeration of games x grid profiles x derived thresholds (below / at / just above / between every probability)",
-         "Strategies::truncate on every enumerated (game, profile, threshold) is read back through as_named and compared clause by clause with the statement (survivors, proportional rescale, distribution even without survivors, idempotence, no change below all positives).",
+         "Strategies::truncate on every enumerated (game, profile, threshold) is read back through as_named and compared clause by clause with the statement (survivors, proportional rescale, distribution even without survivors, idempotence, no change below all positives); wide infosets (2..24 actions, non-dyadic); two-call sequences against the statement applied twice; and an explicit-state search of the Strategies object (truncate / re-import / clone, depth 3) in which the object must hold the model's state at every reachable state.",
          "Payoffs are irrelevant to truncate, so one payoff fill per skeleton.", "5 C18"),
  "C19": ("E-INPUT", "bounded-exhaustive enumeration of games x ordered pairs of grid profiles x exponents, plus the documented panic cases",
          "Strategies::distance on every ordered pair of grid profiles for p in {0.25,0.5,1,2,7.5,100}: range, NaN, zero iff equal, positive iff different, bitwise symmetry; panics exactly for non-positive p and different game objects.",
